@@ -497,7 +497,28 @@ func (c20) Eval(c *Chooser, env *Env) *Outcome {
 		}
 	}
 
-	res := RunLint(w, c, RunOpts{KeepTrace: env.KeepTrace})
+	ro := RunOpts{KeepTrace: env.KeepTrace}
+	var priorInv []c20Inv
+	if !withFaults && !viaMain && !brokenRepo && c.Weighted("world.secondcall", 1, 6) {
+		// a long-lived Linter (an editor integration, a server): the measured call is the second one
+		// on the instance; the first linted one other file - without scripts, or with one bash and one
+		// python script of its own - and whatever it left behind (process manager, semaphore, rule
+		// state) must not cost the second call an invocation or a diagnostic
+		pp := root + "/.github/workflows/zz-earlier.yml"
+		pt := "on: push\njobs:\n  earlier:\n    runs-on: ubuntu-latest\n    steps:\n      - uses: actions/checkout@v4\n"
+		if c.Bool("world.secondcallscripts") {
+			pt += "      - run: echo $EARLIER_CALL SC2086\n      - run: import earlier PF01\n        shell: python\n"
+		}
+		disk.Put(pp, []byte(pt))
+		var err error
+		if priorInv, err = c20Model(pp, pt, haveSC, havePF); err != nil {
+			o.probe("generator_yaml_error", 1)
+			return o
+		}
+		ro.ReuseLinter, ro.PriorFile = true, pp
+		o.probe("second_call_on_one_linter", 1)
+	}
+	res := RunLint(w, c, ro)
 	o.addRun(res.K)
 	if env.KeepTrace {
 		o.Traces = append(o.Traces, res.K.Trace)
@@ -554,6 +575,9 @@ func (c20) Eval(c *Chooser, env *Env) *Outcome {
 	want := map[string]int{}
 	for _, e := range expect {
 		want[InvKey(e.Tool, e.Stdin)]++
+	}
+	for _, e := range priorInv {
+		want[InvKey(e.Tool, e.Stdin)]++ // the earlier call's own invocations are in the kernel's list too
 	}
 	got := map[string]int{}
 	stdinOf := map[string]string{}
